@@ -822,7 +822,7 @@ func replayMembership(t Trace) (string, error) {
 		where := fmt.Sprintf("trace %s step %d (%s member%d)", t.ID, si, st.Op, st.Idx)
 		var err error
 		switch st.Op {
-		case "join":
+		case "join", "rejoin":
 			err = start(st.Idx)
 		case "leave":
 			err = stop(st.Idx, syscall.SIGTERM)
